@@ -26,6 +26,12 @@ decided.  Decided are structural necessary conditions of it in src/dround.c:
  RF-weekend   co-class business-day rounding moves a weekend day to Friday (backward) or Monday (forward) exactly
  RF-fresh     a looked-up period length is used for the period it was looked up for: no write, on any path between the look-up
               and the use, to a field the look-up read (a month length taken before the year moves on)
+ RF2-round    dround_ddur decoded (rules/rounddecode.py): for year-month-day dates of the 21 class years, every day-of-month, month
+              and weekday target, both directions, with and without --next, the result is the nearest date on the requested side
+              with that field value (a day the month lacks being its last day), finer fields kept; rounding the result again
+              returns it; tround_tdur and tround_tdur_cocl decoded likewise (gotos followed) on a grid of times that puts every
+              field on, next to and away from every boundary, for every hour / minute / second value target and every co-class
+              divisor of the day, with the day carry
  RF-carry     dt_round adds the day carry of the time rounding to the date, resets it, and only then rounds the date
 """
 from core import (AnalysisBroken, strip, kids, const_of, call_args, expr_text, walk, CASTS, switch_cases)
@@ -991,6 +997,11 @@ def check_fresh(P, R, tu):
 
 def check(P, R, tier):
     tu = P.tu(UNIT)
+    import rounddecode
+    nr = rounddecode.run_parallel(R, P, "RF2-round", every=(tier == "thorough"), jobs=14)
+    R.floor("RF2-round", "decoded (date, target, direction, --next) points of the date rounding", nr, 300000)
+    nt = rounddecode.run_time_parallel(R, P, "RF2-round", every=(tier == "thorough"), jobs=14)
+    R.floor("RF2-round", "decoded (time, target, direction, --next) points of the time rounding", nt, 100000)
     check_fresh(P, R, tu)
     per_fn = check_fourway(P, R, tu)
     check_same(P, R, per_fn)
@@ -1000,11 +1011,14 @@ def check(P, R, tier):
     check_carry(P, R, tu)
 
 
-LEVEL = ("Decides structural necessary conditions of nearest-target rounding in src/dround.c: the eight value-rounding siblings are "
-         "the same four-way decision with consistent field, target, direction, carry side and wrap constants; the value stored on "
-         "a path that does not carry is the value compared with (a clamped target is clamped before the comparison); the two co-class "
-         "roundings validate the divisor before the remainder and move by the right amount in each of their four cases; packing and "
-         "splitting constants agree; the day carry is consumed between time and date rounding.  That the result is the nearest value "
-         "with the requested field for every input, and idempotence as a whole, are NOT decided.")
+LEVEL = ("Decides the date rounding of dround for year-month-day dates by decoding dround_ddur against the definition (RF2-round): for "
+         "every date of the 21 year classes (quick tier: the 1st, 2nd, 15th and 27th-31st of every month), every day-of-month, month "
+         "and weekday target, both directions, with and without --next, the result is the nearest date on the requested side with "
+         "that field value, finer fields kept, and rounding it again returns it; the value and co-class time roundings likewise on a "
+         "grid of times around every boundary, with the day carry.  Plus structural conditions: the eight value-rounding siblings are "
+         "one four-way decision with consistent field, target, direction, carry side and wrap constants; compared = stored on the "
+         "no-carry paths; divisor gates of the co-class roundings; packing / splitting constants; carry consumed between time and "
+         "date rounding; fresh period lengths.  NOT decided: rounding of dates held in other calendars (week dates to a week number, "
+         "business-day dates), epoch co-class rounding beyond its structure, and dt_round's composition of several targets.")
 RULE = "obligation = one test / arm / wrap / goto of a sibling, one no-carry path, one gate / move of a co-class rounding, one constant pair"
 ASSUME = ["period lengths (__get_mdays, __get_bdays, __get_isowk) are right (C01)", "dt_dadd adds days exactly (C03)"]
